@@ -8,11 +8,6 @@ PYTHONPATH=/repo/src:harness PYTHONHASHSEED=0 /venv/bin/python - <<'PY'
 import sys
 from vp import build
 try:
-    from vp import srcfacts
-    srcfacts.regenerate()
-except ImportError:
-    pass
-try:
     print(build.ensure_built(jobs=16, timeout=3000))
 except build.BuildError as e:
     print("BUILD FAILED at", e.stage, e.target)
